@@ -208,6 +208,7 @@ func chainRunOnce(s *Summary, c *chainCase, sp chainSplit) {
 		return map[string]any{"kind": "chain", "aspect": aspect, "chain_len": n, "chain_kind": c.Kind, "split": fmt.Sprintf("%+v", sp), "what": what}
 	}
 	var r *rux.Router
+	decoyMw := func(cx *rux.Context) { cur.log = append(cur.log, []any{"in", -1, cx.IsAborted()}) } // must never run for /x
 	method, path := "GET", "/g/h/x"
 	regPanic := any(nil)
 	func() {
@@ -220,7 +221,12 @@ func chainRunOnce(s *Summary, c *chainCase, sp chainSplit) {
 		switch c.Kind {
 		case "route":
 			mw := hs[:n-1]
-			take := func(k int) []rux.HandlerFunc { x := mw[:k]; mw = mw[k:]; return x }
+			// every level gets its own slice with cap == len, like literal variadic arguments
+			take := func(k int) []rux.HandlerFunc {
+				x := append([]rux.HandlerFunc{}, mw[:k]...)
+				mw = mw[k:]
+				return x[:k:k]
+			}
 			gB, gA := take(sp.gBefore), take(sp.gAfter)
 			outer, inner, inUse := take(sp.outer), take(sp.inner), take(sp.inUse)
 			variadic, later := take(sp.variadic), take(sp.later)
@@ -230,10 +236,14 @@ func chainRunOnce(s *Summary, c *chainCase, sp chainSplit) {
 			var rt *rux.Route
 			r.Group("/g", func() {
 				r.Group("/h", func() {
-					if len(inUse) > 0 {
-						r.Use(inUse...)
+					for _, h := range inUse { // one Use call per handler: the group chain gets spare capacity
+						r.Use(h)
 					}
 					rt = r.GET("/x", hs[n-1], variadic...)
+					// registered AFTER the route, in the same group: must not leak into the chain of /x
+					r.GET("/decoy", nopHandler, decoyMw)
+					r.Use(decoyMw)
+					r.Group("/sub", func() { r.GET("/decoy2", nopHandler) }, decoyMw)
 				}, inner...)
 			}, outer...)
 			if len(later) > 0 {
